@@ -118,6 +118,18 @@ def oracle(ctx, seeds=None):
             mid6 = s6.solve(f0, cfl, stop={'maxit': N6}, monitors=m6)[-1]
             s6.restart(mid6, cfl, stop={'maxit': M + 3}, monitors=m6)
             out['m6'] = (fr6, N6, M + 3, list(m6['avg']['output']._it), list(m6['res']['output']._it))
+            # monitors belong to the call that received them: later calls on the same solver object with OTHER monitors, or with
+            # none, do not add entries to them
+            s7 = mk()
+            frA = int(rng.integers(1, 4))
+            mA = {'avgA': {'type': 'data_average', 'data': list(mod.list_var())[0], 'frequency': frA}}
+            s7.solve(f0, cfl, stop={'maxit': N + 1}, monitors=mA)
+            recA = (list(mA['avgA']['output']._it), list(mA['avgA']['output']._value))
+            mB = {'resB': {'type': 'residual', 'frequency': frA + 1}}
+            midB = s7.solve(f0, cfl, stop={'maxit': M + 1}, monitors=mB)[-1]
+            recB = (list(mB['resB']['output']._it), list(mB['resB']['output']._value))
+            s7.restart(midB, cfl, stop={'maxit': 3})
+            out['m7'] = (recA, (list(mA['avgA']['output']._it), list(mA['avgA']['output']._value)), recB, (list(mB['resB']['output']._it), list(mB['resB']['output']._value)))
             return out
         ok, out = impl.guarded(run)
         res.case((name, model, N, M))
@@ -142,6 +154,10 @@ def oracle(ctx, seeds=None):
                     if not abs(v9 - ref9) <= 1e-12 * (abs(ref9) + 1e-300):
                         res.fail(name + ':residual-monitor-value', "residual monitor entry at iteration %d is %r, the residual norm of the trajectory state is %r (solver object used before from another field)" % (k9, v9, ref9), rp)
                         break
+        recA, nowA, recB, nowB = out['m7']
+        if recA != nowA or recB != nowB:
+            res.fail(name + ':monitors-of-earlier-calls-extended', "monitors given to an earlier call were extended by later calls on the same solver that did not receive them: iterations %r -> %r (first call's monitor), %r -> %r (second call's)" %
+                     (recA[0], nowA[0], recB[0], nowB[0]), rp)
         if 'local_saves' in out and not eq(out['local_plain'], out['local_saves']):
             res.fail(name + ':saves-change-local-dt-trajectory', "with the local-time-step directive, requesting intermediate snapshots changes the final state (time %r vs %r)" %
                      (out['local_saves'].time, out['local_plain'].time), rp)
